@@ -512,9 +512,9 @@ class IGen:
     def history(self):
         r = self.r
         c = {"birth_range": None, "pers_range": None, "pixel_size": None}
-        if r.random() < 0.6:
+        if r.random() < 0.6 or self.L != 1.0:      # the default ranges (0,1) only at scale 1 (resolution stays small)
             c["birth_range"] = list(self.rng_())
-        if r.random() < 0.6:
+        if r.random() < 0.6 or self.L != 1.0:
             c["pers_range"] = list(self.rng_())
         c["pixel_size"] = self.pixel()          # always a power of two (the default 0.2 is exercised by C12)
         return {"ctor": c, "calls": [self.call() for _ in range(r.randint(0, 10))]}
@@ -643,7 +643,7 @@ def _run(ctx):
     }
     # ---- landscaper: correspondence
     lcases = list(L_CORPUS)
-    for _ in range(ctx.n(500, 8000)):
+    for _ in range(ctx.n(2000, 25000)):
         lcases.append(LGen(ctx).history())
     cov = common.LineCov(["persim/landscapes/transformer.py", "persim/images.py"])
     lrecs = []
@@ -670,7 +670,7 @@ def _run(ctx):
             ldis.append((case, d))
     # ---- imager: correspondence (dyadic, exact)
     icases = []
-    for _ in range(ctx.n(300, 5000)):
+    for _ in range(ctx.n(1000, 12000)):
         icases.append(IGen(ctx).history())
     irecs = []
     for i, case in enumerate(icases):
@@ -696,7 +696,7 @@ def _run(ctx):
 
     # ---- [T] the laws on the real code (this is also the search for a failing input when the correspondence broke)
     law_cases = list(lcases[:len(L_CORPUS)]) + [c for c, _ in ldis[:20]]
-    for _ in range(ctx.n(400, 6000)):
+    for _ in range(ctx.n(1500, 20000)):
         law_cases.append(LGen(ctx).history())
     for case in law_cases:
         res = common.call(l_laws, ctx, case)
@@ -710,7 +710,7 @@ def _run(ctx):
                           found_input=True, reproducer=l_reproducer(case))
             if len(ctx.violations) >= MAXV:
                 return
-    for _ in range(ctx.n(250, 4000)):
+    for _ in range(ctx.n(800, 10000)):
         res = common.call(i_laws, ctx)
         if res[0] == "err":
             raise common.HarnessError("imager law stream raised %s" % res[1])
